@@ -1,18 +1,21 @@
-"""C13/C12 - reveal surfaces of a set-back window, decided by exact symbolic geometry.
+"""C13/C12 - reveal surfaces of a set-back window, decided by exact symbolic geometry, for every tilt of the wall.
 
-Each reveal is a WallGeom (tilt, azimuth, position, polygon) whose angles differ from the wall's by multiples of 90 degrees and whose position
-is a point of the wall plane.  Its corners are carried into the wall's own frame with exact 90-degree rotation matrices (entries 0, +-1) and
-linear polynomials in the window's width W, height H, setback S and position (X, Y); the four reveals must be exactly the four rectangles that
-span the gap between the wall plane (z = 0) and the window plane (z = -S) along the window's edges.  The jambs are evaluated for a vertical
-wall (tilt 90), where a turn about the vertical axis is a turn about the wall's own Y axis; lintel and sill are exact for every tilt.
+Each reveal is a WallGeom (tilt, azimuth, position, polygon).  Its azimuth is the wall's plus a multiple of 90 degrees; its tilt is the wall's
+plus a multiple of 90 degrees or a constant multiple of 90 degrees; its position is a point of the wall plane given in the wall's frame; its
+polygon corners are polynomials in the window's width W, height H, setback S and in the sine and cosine of the wall's tilt (possibly written
+as sin/cos of `tilt + k*90`).  With s = sin(tilt), c = cos(tilt) as symbols and c*c = 1 - s*s as the only relation, every corner is carried
+into the wall's own frame exactly:   corner_wall = anchor + Rx(-tilt) Rz(k_a*90) Rx(tilt_reveal) (px, py, 0),
+and the four reveals must be exactly the four rectangles that span the gap between the wall plane (z = 0) and the window plane (z = -S)
+along the window's edges - as polynomial identities, i.e. for walls of any tilt and azimuth.
 """
 from fractions import Fraction
 
 from ..cfgq import Scope, inline_helper
-from ..exprs import strip, short_callee, show, leaf_name, walk, Normalizer, Poly
+from ..exprs import strip, short_callee, show, leaf_name, walk, Normalizer, Poly, is_arith_op, TRANSPARENT
 from ..facts import AnalysisError
 
 SYMS = {"self.geometry.width": "W", "self.geometry.height": "H", "self.geometry.setback": "S"}
+TILT = "wallgeom.tilt"
 
 
 def _coords(n):
@@ -24,37 +27,137 @@ def _coords(n):
     return None
 
 
-def _lin(nz, n):
-    r = nz.code(strip(n))
-    if nz.unknown:
-        raise AnalysisError("reveal geometry: quantity %s is not one of width/height/setback/position" % nz.unknown[:2])
-    if str(r.den) not in ("1", "(1)") and not r.den.is_one():
-        raise AnalysisError("reveal geometry: non-polynomial coordinate %s" % r)
-    return r.num
+def _reduce(p):
+    """normal form modulo c*c = 1 - s*s"""
+    while True:
+        hit = None
+        for m in p.t:
+            d = dict(m)
+            if d.get("c", 0) >= 2:
+                hit = m
+                break
+        if hit is None:
+            return p
+        coef = p.t[hit]
+        d = dict(hit)
+        d["c"] -= 2
+        if d["c"] == 0:
+            del d["c"]
+        rest = Poly({tuple(sorted(d.items())): coef})
+        p = p - Poly({hit: coef}) + rest * (Poly.const(1) - Poly.atom("s") * Poly.atom("s"))
 
 
-def _rot(axis, quarter):
-    c = [1, 0, -1, 0][quarter % 4]
-    s = [0, 1, 0, -1][quarter % 4]
-    if axis == "x":
-        return [[1, 0, 0], [0, c, -s], [0, s, c]]
-    return [[c, -s, 0], [s, c, 0], [0, 0, 1]]
+def _quarter_trig(k):
+    """(cos, sin) of (tilt + 90 k) as polynomials in c, s"""
+    c, s = Poly.atom("c"), Poly.atom("s")
+    return [(c, s), (-s, c), (-c, -s), (s, -c)][k % 4]
 
 
-def _mul(a, b):
-    return [[sum(a[i][k] * b[k][j] for k in range(3)) for j in range(3)] for i in range(3)]
-
-
-def _quarters(nz, node, base_name):
-    """node = base + k*90 -> k"""
-    n = strip(node)
-    lm = dict(nz.leafmap)
-    p = Normalizer({base_name: "B"}, {}, strict=False).code(n)
+def _angle_quarters(n):
+    """node = wall tilt + 90 k (degrees)  -> k, or None"""
+    p = Normalizer({TILT: "B"}, {}, strict=False).code(strip(n))
     ref = Normalizer({}, {}, strict=False)
-    for k in (-2, -1, 0, 1, 2):
+    for k in range(-4, 5):
         if p.equals(ref.ref("B + %d" % (90 * k))):
             return k
     return None
+
+
+def _const_quarters(n):
+    """constant angle that is a multiple of 90 degrees -> k, or None"""
+    p = Normalizer({}, {}, strict=False).code(strip(n))
+    if p.d.is_const() and p.n.is_const() and not p.d.is_zero():
+        v = p.n.const_value() / p.d.const_value()
+        if v % 90 == 0:
+            return int(v // 90)
+    return None
+
+
+def _trig_of(n):
+    """n = sin(..)/cos(..) of the wall's tilt (+ 90 k), written with to_radians(), sin(), cos() or sin_cos().N -> Poly, else None"""
+    n = strip(n)
+    which = None
+    arg = None
+    if n[0] == "call" and short_callee(n[1]) in ("sin", "cos") and len(n[2]) == 1:
+        which, arg = short_callee(n[1]), strip(n[2][0])
+    elif n[0] == "proj" and n[2] in ((".0",), (".1",)) and strip(n[1])[0] == "call" and short_callee(strip(n[1])[1]) == "sin_cos":
+        which, arg = ("sin" if n[2] == (".0",) else "cos"), strip(strip(n[1])[2][0])
+    if which is None:
+        return None
+    if not (arg[0] == "call" and short_callee(arg[1]) == "to_radians" and len(arg[2]) == 1):
+        raise AnalysisError("reveal geometry: %s of something that is not an angle in degrees turned to radians: %s" % (which, show(arg)[:60]))
+    k = _angle_quarters(arg[2][0])
+    if k is None:
+        raise AnalysisError("reveal geometry: %s of an angle that is not the wall's tilt plus a multiple of 90 degrees: %s" % (which, show(arg[2][0])[:60]))
+    co, si = _quarter_trig(k)
+    return si if which == "sin" else co
+
+
+def _poly(n, leaves):
+    """polynomial over W, H, S, X, Y, s, c of a coordinate expression"""
+    n = strip(n)
+    k = n[0]
+    t = _trig_of(n)
+    if t is not None:
+        return t
+    if k == "k":
+        try:
+            return Poly.const(Fraction(n[1]))
+        except (ValueError, ZeroDivisionError):
+            raise AnalysisError("reveal geometry: non-numeric constant %r" % (n[1],))
+    if k == "cast":
+        return _poly(n[1], leaves)
+    if k == "un" and n[1] == "Neg":
+        return -_poly(n[2], leaves)
+    if k == "bin" or (k == "call" and short_callee(n[1]) in ("add", "sub", "mul") and is_arith_op(n[1]) and len(n[2]) == 2):
+        op = n[1] if k == "bin" else {"add": "Add", "sub": "Sub", "mul": "Mul"}[short_callee(n[1])]
+        a, b = (n[2], n[3]) if k == "bin" else (n[2][0], n[2][1])
+        a, b = _poly(a, leaves), _poly(b, leaves)
+        if op.startswith("Add"):
+            return a + b
+        if op.startswith("Sub"):
+            return a - b
+        if op.startswith("Mul"):
+            return a * b
+        raise AnalysisError("reveal geometry: operator %s in a coordinate" % op)
+    if k == "call" and short_callee(n[1]) == "neg" and is_arith_op(n[1]):
+        return -_poly(n[2][0], leaves)
+    if k == "call" and short_callee(n[1]) in TRANSPARENT and len(n[2]) == 1:
+        return _poly(n[2][0], leaves)
+    ln = leaf_name(n)
+    if ln is not None:
+        if ln in SYMS:
+            return Poly.atom(SYMS[ln])
+        if leaves and ln.endswith(".x"):
+            return Poly.atom("X")
+        if leaves and ln.endswith(".y"):
+            return Poly.atom("Y")
+    raise AnalysisError("reveal geometry: coordinate uses %s, which is not the window's width/height/setback/position or the wall's tilt" % (ln or show(n)[:80]))
+
+
+def _rx(co, si):
+    one, zero = Poly.const(1), Poly.const(0)
+    return [[one, zero, zero], [zero, co, -si], [zero, si, co]]
+
+
+def _rz_quarter(k):
+    c = Poly.const([1, 0, -1, 0][k % 4])
+    s = Poly.const([0, 1, 0, -1][k % 4])
+    one, zero = Poly.const(1), Poly.const(0)
+    return [[c, -s, zero], [s, c, zero], [zero, zero, one]]
+
+
+def _mul(a, b):
+    out = []
+    for i in range(3):
+        row = []
+        for j in range(3):
+            acc = Poly.const(0)
+            for k in range(3):
+                acc = acc + a[i][k] * b[k][j]
+            row.append(_reduce(acc))
+        out.append(row)
+    return out
 
 
 def reveals(prog):
@@ -82,11 +185,21 @@ def reveals(prog):
                     lits.append((dict(zip(x[2], x[3])), t.get("ln")))
     out = []
     for fl, ln in lits:
-        nz = Normalizer(dict(SYMS, **{"wpos.x": "X", "wpos.y": "Y"}), {}, strict=False)
-        kt = _quarters(nz, fl["tilt"], "wallgeom.tilt")
-        ka = _quarters(nz, fl["azimuth"], "wallgeom.azimuth")
-        if kt is None or ka is None:
-            raise AnalysisError("reveal geometry: tilt/azimuth are not the wall's plus a multiple of 90 degrees (%s, %s)" % (show(strip(fl["tilt"]))[:40], show(strip(fl["azimuth"]))[:40]))
+        # tilt of the reveal: the wall's plus quarter turns ("rel", k) or a constant number of quarter turns ("abs", k)
+        kt = _angle_quarters(fl["tilt"])
+        tilt = ("rel", kt) if kt is not None else None
+        if tilt is None:
+            kc = _const_quarters(fl["tilt"])
+            tilt = ("abs", kc) if kc is not None else None
+        nz_a = Normalizer({"wallgeom.azimuth": "B"}, {}, strict=False)
+        pa = nz_a.code(strip(fl["azimuth"]))
+        ka = None
+        for k in range(-4, 5):
+            if pa.equals(Normalizer({}, {}, strict=False).ref("B + %d" % (90 * k))):
+                ka = k
+        if tilt is None or ka is None:
+            raise AnalysisError("reveal geometry: tilt/azimuth are not the wall's plus a multiple of 90 degrees, nor a constant multiple of 90 (%s, %s)"
+                                % (show(strip(fl["tilt"]))[:40], show(strip(fl["azimuth"]))[:40]))
         pos = strip(fl["position"])
         if not (pos[0] == "agg" and pos[1].endswith("Some")):
             raise AnalysisError("reveal geometry: position is not Some(..)")
@@ -96,28 +209,7 @@ def reveals(prog):
         pc = _coords(m[2][1])
         if pc is None or len(pc) != 3:
             raise AnalysisError("reveal geometry: anchor point not readable")
-        # wpos comes from `self.geometry.position` matched Some(pos): name its components X, Y
-        def lin(n):
-            nz2 = Normalizer(SYMS, {}, strict=False)
-            r = nz2.code(strip(n))
-            unk = [u for u in nz2.unknown]
-            # rename the window-position leaves
-            return r, unk
-        anchor = []
-        for c in pc:
-            nz2 = Normalizer(SYMS, {}, strict=False)
-            txt = show(c)
-            nz2.leafmap = dict(SYMS)
-            for x in walk(c):
-                ln_ = leaf_name(x) if x[0] in ("proj", "var", "arg") else None
-                if ln_ and ln_.endswith(".x") and ln_ not in SYMS:
-                    nz2.leafmap[ln_] = "X"
-                if ln_ and ln_.endswith(".y") and ln_ not in SYMS:
-                    nz2.leafmap[ln_] = "Y"
-            r = nz2.code(c)
-            if nz2.unknown:
-                raise AnalysisError("reveal geometry: anchor coordinate uses %s" % nz2.unknown[:2])
-            anchor.append(r)
+        anchor = [_poly(c, True) for c in pc]
         poly = strip(fl["polygon"])
         inl = inline_helper(prog, poly) if poly[0] == "call" else None
         if inl is not None:
@@ -125,68 +217,82 @@ def reveals(prog):
         if not (poly[0] == "agg" and poly[1] == "vec" and len(poly[3]) == 4):
             raise AnalysisError("reveal geometry: polygon is not a vec! of four points: %s" % show(poly)[:60])
         corners = []
-        for p in poly[3]:
-            cs = _coords(p)
+        for p_ in poly[3]:
+            cs = _coords(p_)
             if cs is None or len(cs) != 2:
                 raise AnalysisError("reveal geometry: polygon point not readable")
-            row = []
-            for c in cs:
-                nz3 = Normalizer(SYMS, {}, strict=False)
-                r = nz3.code(c)
-                if nz3.unknown:
-                    raise AnalysisError("reveal geometry: polygon coordinate uses %s" % nz3.unknown[:2])
-                row.append(r)
-            corners.append(row)
-        out.append((f.loc(ln), kt, ka, anchor, corners))
+            corners.append([_poly(c, False) for c in cs])
+        out.append((f.loc(ln), tilt, ka, anchor, corners))
     return f, out
+
+
+def _tilt_text(tilt):
+    return "tilt%+d" % (90 * tilt[1]) if tilt[0] == "rel" else "tilt=%d" % (90 * tilt[1])
 
 
 def check_reveals(ctx, rule, prefix):
     prog = ctx.prog
     f, revs = reveals(prog)
     ctx.require(len(revs) == 4, "shades_for_setback: expected four reveal geometries, found %d" % len(revs))
-    nz = Normalizer({}, {}, strict=False)
-    zero = nz.ref("0")
+
+    def P(text):
+        r = Normalizer({}, {}, strict=False).ref(text)
+        return r.n
     expect = {
         "lintel": [("X", "Y + H", "0"), ("X + W", "Y + H", "0"), ("X", "Y + H", "0 - S"), ("X + W", "Y + H", "0 - S")],
         "sill": [("X", "Y", "0"), ("X + W", "Y", "0"), ("X", "Y", "0 - S"), ("X + W", "Y", "0 - S")],
         "left jamb": [("X", "Y", "0"), ("X", "Y + H", "0"), ("X", "Y", "0 - S"), ("X", "Y + H", "0 - S")],
         "right jamb": [("X + W", "Y", "0"), ("X + W", "Y + H", "0"), ("X + W", "Y", "0 - S"), ("X + W", "Y + H", "0 - S")],
     }
+    c, s = Poly.atom("c"), Poly.atom("s")
     got = []
-    for (loc, kt, ka, anchor, corners) in revs:
-        # reveal frame -> wall frame, for a vertical wall (tilt = 90 degrees = 1 quarter): Rx(-t) Rz(ka) Rx(t + kt)
-        M = _mul(_mul(_rot("x", -1), _rot("z", ka)), _rot("x", 1 + kt))
+    for (loc, tilt, ka, anchor, corners) in revs:
+        if tilt[0] == "rel":
+            co, si = _quarter_trig(tilt[1])
+        else:
+            co, si = Poly.const([1, 0, -1, 0][tilt[1] % 4]), Poly.const([0, 1, 0, -1][tilt[1] % 4])
+        # reveal frame -> wall frame: Rx(-t) Rz(90 ka) Rx(t_reveal), exact in s = sin t, c = cos t
+        M = _mul(_mul(_rx(c, -s), _rz_quarter(ka)), _rx(co, si))
         pts = []
         for (px, py) in corners:
-            v = [px, py, zero]
-            w = []
-            for i in range(3):
-                acc = anchor[i]
-                for j in range(3):
-                    if M[i][j] == 1:
-                        acc = acc + v[j]
-                    elif M[i][j] == -1:
-                        acc = acc - v[j]
-                w.append(acc)
-            pts.append(w)
-        got.append((loc, kt, ka, pts))
+            v = [px, py, Poly.const(0)]
+            pts.append([_reduce(anchor[i] + M[i][0] * v[0] + M[i][1] * v[1] + M[i][2] * v[2]) for i in range(3)])
+        got.append((loc, tilt, ka, pts))
     used = set()
-    for (loc, kt, ka, pts) in got:
+    for (loc, tilt, ka, pts) in got:
         match = None
         for name, exp in expect.items():
-            exp_r = [[nz.ref(c) for c in p] for p in exp]
-            if len(pts) == 4 and all(any(all(a.equals(b) for a, b in zip(p, e)) for e in exp_r) for p in pts) and \
-                    all(any(all(a.equals(b) for a, b in zip(p, e)) for p in pts) for e in exp_r):
+            exp_r = [[P(c_) for c_ in p_] for p_ in exp]
+            if len(pts) == 4 and all(any(all(a == b for a, b in zip(p_, e)) for e in exp_r) for p_ in pts) and \
+                    all(any(all(a == b for a, b in zip(p_, e)) for p_ in pts) for e in exp_r):
                 match = name
-        key = "%s|reveal|tilt%+d,az%+d" % (prefix, 90 * kt, 90 * ka)
+        key = "%s|reveal|%s,az%+d" % (prefix, _tilt_text(tilt), 90 * ka)
         if match and match not in used:
             used.add(match)
-            ctx.ok(rule, key, "%s: spans z in [-setback, 0] along the window's %s edge (corners in the wall's frame agree with the four expected points)" % (match, match), loc)
+            ctx.ok(rule, key, "%s: spans z in [-setback, 0] along the window's %s edge for every tilt of the wall (corners in the wall's frame agree with the four expected "
+                   "points as polynomial identities in sin/cos of the tilt)" % (match, match), loc)
         else:
-            zs = sorted({str(p[2]) for p in pts})
-            ctx.violation(rule, key, "the reveal built with tilt%+d / azimuth%+d does not span the gap between the wall plane and the window plane along an edge of the window: "
-                          "in the wall's frame its corners are %s (depths %s; expected depths 0 and -S, i.e. from the wall plane back to the glazing)"
-                          % (90 * kt, 90 * ka, ["(%s, %s, %s)" % tuple(str(c) for c in p) for p in pts], zs), loc)
+            # does it at least hold for a vertical wall?  (s = 1, c = 0)
+            def at_vertical(p_):
+                t = {}
+                for m_, cf in p_.t.items():
+                    d = dict(m_)
+                    if d.get("c"):
+                        continue
+                    d.pop("s", None)
+                    k_ = tuple(sorted(d.items()))
+                    t[k_] = t.get(k_, 0) + cf
+                return Poly(t)
+            vpts = [[at_vertical(c_) for c_ in p_] for p_ in pts]
+            vmatch = None
+            for name, exp in expect.items():
+                exp_r = [[P(c_) for c_ in p_] for p_ in exp]
+                if all(any(all(a == b for a, b in zip(p_, e)) for e in exp_r) for p_ in vpts) and all(any(all(a == b for a, b in zip(p_, e)) for p_ in vpts) for e in exp_r):
+                    vmatch = name
+            zs = sorted({str(p_[2]) for p_ in pts})
+            extra = (" It is the %s on a vertical wall only (sin t = 1, cos t = 0): on a tilted or horizontal wall it does not stand perpendicular to the wall." % vmatch) if vmatch else ""
+            ctx.violation(rule, key, "the reveal built with %s / azimuth%+d does not span the gap between the wall plane and the window plane along an edge of the window for every "
+                          "wall tilt: in the wall's frame (s = sin tilt, c = cos tilt) its corners are %s (depths %s; expected depths 0 and -S, i.e. from the wall plane back to the "
+                          "glazing).%s" % (_tilt_text(tilt), 90 * ka, ["(%s, %s, %s)" % tuple(str(c_) for c_ in p_) for p_ in pts], zs, extra), loc)
     if len(used) == 4:
         ctx.ok(rule, "%s|reveal|four-edges" % prefix, "lintel, sill and both jambs are present, one each", f.loc())
